@@ -58,7 +58,7 @@ def build(img, prof, size_bytes=None):
                       note={k_: v for k_, v in prof.items() if k_ != "when"}, cb=cb, stride=ab, sector=prof["sector"])
 
 
-def make_trace(tid, rng, nops=25):
+def make_trace(tid, rng, nops=25, **opt):
     sector = rng.choice([512, 512, 4096])
     bs = rng.choice([1 << 20, 1 << 20, 2 << 20, 8 << 20])
     n = rng.randrange(2, 40 if bs == (1 << 20) else 12)
@@ -82,7 +82,7 @@ def make_trace(tid, rng, nops=25):
     b = disk.Built(open=lambda: _open(vf), cell=bs, size=size_b, bases={0: info["data_base"]}, sector=sector)
     s = b.open()
     fresh = b.open()
-    rec = record.Recorder(s, size_b, probe=fresh.readoffset)
+    rec = record.Recorder(s, size_b, probe=fresh.readoffset, align=opt.get("align"))
     record.random_ops(rec, rng, size_b, nops, unit=bs, big=min(3 * bs + 4096, 6 << 20), sectors_fn=s.read_sectors, ssize=sector)
     return {"tid": tid, "fmt": "vhdx", "img": {"n": n, "cb": 1, "st": st, "p": pp, "bm": [[] for _ in range(n)], "size": n, "parent": False},
             "sizeB": size_b, "sector": sector, "geo": b.geo(), "events": rec.events}
